@@ -127,6 +127,8 @@ func (in *Interp) callRtypeMethod(m *rtypeMethod, args []value) value {
 		return types.TypeString(t, func(p *types.Package) string { return p.Name() })
 	case "Kind":
 		return uint(reflectKind(t))
+	case "Comparable":
+		return types.Comparable(t)
 	}
 	abort(abUnsupported, "reflect.Type."+m.name)
 	return nil
